@@ -59,7 +59,7 @@ def natRun (proto : Proto) (strat : Strategy) (resume : Bool) (total : Nat) (fs 
 def natCrash (proto : Proto) (strat : Strategy) (total k : Nat) : FS Path :=
   crash FS.empty (natRun proto strat false total FS.empty).1 k
 
-example : Reach (natSys 2) .repaired .all 3 0 (natCrash .repaired .all 3 52) := Reach.first false 52
+example : Reach (natSys 2) .repaired .all 3 0 (natCrash .repaired .all 3 59) := Reach.first false 59
 
 /-- outcome of `resume=True` on a crashed directory, as a small decidable value: none = raised -/
 def resumeOutcome (proto : Proto) (strat : Strategy) (total k : Nat) : Option Nat :=
@@ -73,7 +73,7 @@ def resumeError (proto : Proto) (strat : Strategy) (total k : Nat) : Option Err 
   | .error e => some e
 
 /-- in that directory the marker says 0, a sample temp file of iteration 1 is half written, resume returns state 3 -/
-example : natCrash .repaired .all 3 52 .marker = some [48] ∧ resumeOutcome .repaired .all 3 52 = some 3 := by decide
+example : natCrash .repaired .all 3 59 .marker = some [48] ∧ resumeOutcome .repaired .all 3 52 = some 3 := by decide
 
 /-! **The protocol as found in /repo is not crash safe** (documented witnesses, replayed on the real code by the check;
     system `natSys 2`, 2 iterations, byte-granular operation indices). -/
@@ -81,23 +81,23 @@ example : natCrash .repaired .all 3 52 .marker = some [48] ∧ resumeOutcome .re
 /-- (a) the marker is truncated in place: killed right after `open(last_finished_iteration, "w")` of iteration 1,
     `int('')` raises on resume -/
 theorem asFound_marker_truncated : ∃ k, natCrash .asFound .all 2 k .marker = some [] ∧
-    resumeError .asFound .all 2 k = some .markerParse := ⟨62, by decide⟩
+    resumeError .asFound .all 2 k = some .markerParse := ⟨74, by decide⟩
 
 /-- (b) the marker is written BEFORE the energy history: killed after the marker of iteration 1 is complete,
     `energy_history_iteration_1` does not exist, resume raises FileNotFoundError (the last iteration is excluded from this
     window: then the driver returns before reading it) -/
 theorem asFound_marker_before_history : ∃ k, natCrash .asFound .all 3 k .marker = some [49] ∧
-    natCrash .asFound .all 3 k (.ehist (.iter 1)) = none ∧ resumeError .asFound .all 3 k = some .missing := ⟨64, by decide⟩
+    natCrash .asFound .all 3 k (.ehist (.iter 1)) = none ∧ resumeError .asFound .all 3 k = some .missing := ⟨77, by decide⟩
 
 /-- (c) and before the minisanity history: the resumed run gets past loading and raises in the middle of iteration 2 -/
 theorem asFound_marker_before_minisanity_history : ∃ k,
     natCrash .asFound .all 3 k (.ehist (.iter 1)) = some [1, 253] ∧ natCrash .asFound .all 3 k (.mhist (.iter 1)) = none ∧
-    resumeError .asFound .all 3 k = some .missing := ⟨72, by decide⟩
+    resumeError .asFound .all 3 k = some .missing := ⟨87, by decide⟩
 
 /-- (d) strategy `latest` overwrites the only copy in place: killed inside the save of sample 0 of iteration 1 the set
     `latest.*` cannot be loaded -/
 theorem asFound_latest_in_place : ∃ k, natCrash .asFound .latest 2 k .marker = some [48] ∧
-    resumeOutcome .asFound .latest 2 k = none := ⟨37, by decide⟩
+    resumeOutcome .asFound .latest 2 k = none := ⟨56, by decide⟩
 
 /-! **Known finding (not repaired): strategy `latest` after the repair.**  Every single file is replaced atomically, but the
     set `latest.*` is not: between the first `os.replace` onto a `latest.*` file of iteration j ≥ 1 and the `os.replace` of
@@ -110,7 +110,7 @@ theorem asFound_latest_in_place : ∃ k, natCrash .asFound .latest 2 k .marker =
     (below). -/
 theorem latest_window_witness : ∃ k, natCrash .repaired .latest 2 k .marker = some [48] ∧
     natCrash .repaired .latest 2 k (.mean .latest) = some [2, 254] ∧
-    resumeOutcome .repaired .latest 2 k ≠ some 2 := ⟨70, by decide⟩
+    resumeOutcome .repaired .latest 2 k ≠ some 2 := ⟨80, by decide⟩
 
 /-! ### strategy `latest`, repaired protocol: what IS proved (`crash_safe_latest_partial`)
 
@@ -143,9 +143,9 @@ theorem crash_safe_latest_partial (sys : Sys S) (hl : Lawful sys) (s0 : S) (tota
   (runL_good hl s0 total true (reachL_good hl s0 total hr) (Or.inl rfl)).1
 
 /-- non-vacuity: a kill in the middle of the temp file of sample 0 of iteration 1 is outside the window … -/
-example : ReachL (natSys 2) 3 0 (natCrash .repaired .latest 3 48) := ReachL.first false 48 (Or.inl (by decide))
+example : ReachL (natSys 2) 3 0 (natCrash .repaired .latest 3 59) := ReachL.first false 59 (Or.inl (by decide))
 /-- … and the witness point of the known finding is inside it (flag up, marker present) -/
-example : pend false ((natRun .repaired .latest false 2 FS.empty).1.take 70) = true ∧
-    natCrash .repaired .latest 2 70 .marker = some [48] := by decide
+example : pend false ((natRun .repaired .latest false 2 FS.empty).1.take 80) = true ∧
+    natCrash .repaired .latest 2 80 .marker = some [48] := by decide
 
 end NiftyVerif.C25
